@@ -64,7 +64,19 @@ func Load() {
 	if len(ders) == 0 {
 		panic("pki: no fixtures in " + Dir())
 	}
+	// warm every cache now, outside any simulation: a lazily filled cache would
+	// make the number of simulation points of a run depend on earlier runs.
+	for _, n := range names {
+		Cert(n)
+	}
+	for n := range keys {
+		if _, err := stdx509.ParsePKCS8PrivateKey(keys[n]); err != nil {
+			sm2keys[n] = SM2Key(n)
+		}
+	}
 }
+
+var sm2keys = map[string]*sm2.PrivateKey{}
 
 // DER returns the certificate DER.
 func DER(name string) []byte {
@@ -79,7 +91,9 @@ func DER(name string) []byte {
 // Cert returns the certificate parsed by gmsm's x509 (cached; parse happens
 // outside simulation).
 func Cert(name string) *x509.Certificate {
-	Load()
+	if len(ders) == 0 {
+		Load()
+	}
 	if c, ok := certs[name]; ok {
 		return c
 	}
